@@ -168,6 +168,10 @@ octosql "SELECT * FROM plugins.plugins"`,
 			if _, ok := databases[metadata.Reference.Name]; ok {
 				continue
 			}
+			if len(metadata.Versions) == 0 {
+				// Plugin directory without any complete version (e.g. an interrupted first install).
+				continue
+			}
 			curMetadata := metadata
 
 			once := sync.Once{}
